@@ -7,3 +7,24 @@ From YP Require Import Base.Str Lang.Ast Lang.Denote Lang.Utf8.
 
 Definition run_c16b (s : str) (envs : list (list (str * sterm))) (calls : list (bool * str)) : obs :=
   OL [run_c16 s envs calls; utf8_fingerprint s].
+
+(* a FILE given as bytes (any bytes, not necessarily valid UTF-8) holding one fact whose first argument is a quoted atom:
+   what compile_prolog_from_file / the command line read -- "undecodable" (UnicodeDecodeError), "syntax" (the decoded
+   text is refused by the front end, e.g. a byte order mark in front of the first clause), or the name of the atom *)
+From Coq Require Import String.
+From YP Require Import Lang.Front Lang.FileEntry.
+Local Open Scope string_scope.
+
+Definition run_bytes (b : list N) : obs :=
+  match utf8_decode b with
+  | None => otag "undecodable" nil
+  | Some s =>
+      match front s with
+      | Some (c :: _) =>
+          match c_args c with
+          | SAtom a :: _ => otag "atom" (OS a :: nil)
+          | _ => otag "other" nil
+          end
+      | _ => otag "syntax" nil
+      end
+  end.
